@@ -383,6 +383,28 @@ impl Prop for C04 {
     fn max_bytes(&self) -> usize {
         2500
     }
+    fn enum_count(&self, _tier: Tier) -> u64 {
+        35
+    }
+    fn enum_case(&self, _env: &Env, idx: u64, st: &mut Stats) -> Result<(), Fail> {
+        let (m, what) = super::c02::wide_case(idx);
+        // one member per line, CRLF
+        let r = crate::render::render(&m);
+        let gaps: Vec<String> = (0..=r.toks.len())
+            .map(|i| if i > 0 && i < r.toks.len() && (r.toks[i - 1].text == ";" || r.toks[i - 1].text == "{" || r.toks[i - 1].text == ",") { "\r\n  ".to_owned() } else { " ".to_owned() })
+            .collect();
+        let d = DocCase::build(m, r, &gaps)?;
+        st.eval();
+        st.class("wide-document");
+        match check_doc(&d) {
+            Ok((n, _)) => {
+                st.add("ranges_compared_exactly", n as u64);
+                st.nontrivial(d.laid.text.as_bytes());
+                Ok(())
+            }
+            Err(e) => Err(Fail::new(e, json!({"kind": "enum", "idx": idx, "what": what}))),
+        }
+    }
     fn random(&self, _env: &Env, bytes: &[u8], st: &mut Stats) -> Result<(), Fail> {
         let mut s = Src::new(bytes);
         let malformed = s.chance(1, 3);
